@@ -4,6 +4,7 @@ package gen
 
 import (
 	"strings"
+	"unicode/utf8"
 
 	"verifharness/fw"
 )
@@ -73,7 +74,8 @@ func Capitalize(w string) string {
 	if w == "" {
 		return w
 	}
-	return strings.ToUpper(w[:1]) + w[1:]
+	_, n := utf8.DecodeRuneInString(w)
+	return strings.ToUpper(w[:n]) + w[n:]
 }
 
 // GoName renders words as a Go identifier: initialisms fully upper-case,
@@ -191,6 +193,25 @@ func RandomWords(r *fw.Rand, n int, initialismPct int) []string {
 	if initialismPct > 0 && r.Chance(6) && (n == 1 || !IsInitialism(out[n-2])) {
 		out[n-1] = fw.Pick(r, PluralInitialisms)
 	}
+	return out
+}
+
+// UnicodeWords: ordinary words with non-ASCII letters (at the end, where they sit right before the next word's capital,
+// and inside).
+var UnicodeWords = []string{"café", "clé", "menú", "bebé", "niño", "señal", "zoë", "øre"}
+
+// MaybeUnicode replaces, with the given chance, one non-initialism word (not the first letter-sensitive single-letter
+// ones) by a word from UnicodeWords.
+func MaybeUnicode(r *fw.Rand, ws []string, pct int) []string {
+	if pct <= 0 || !r.Chance(pct) {
+		return ws
+	}
+	k := r.Intn(len(ws))
+	if IsInitialism(ws[k]) || IsPluralInitialism(ws[k]) || len(ws[k]) < 2 {
+		return ws
+	}
+	out := append([]string{}, ws...)
+	out[k] = fw.Pick(r, UnicodeWords)
 	return out
 }
 
